@@ -151,9 +151,14 @@ Definition trunc_usize (x : spec_float) : Z :=
              end
   end%Z.
 
-(* (df * n_documents as f32) as usize, in binary32 *)
-Definition abs_bound (f : spec_float) (n : nat) : N :=
-  Z.to_N (trunc_usize (SFmul p32 e32 f (b32_of_Z (Z.of_nat n)))).
+(* (df * n_documents as f32) as usize, in binary32; the document count as a binary number
+   ([abs_bound_z], used for probes with counts too large for unary numbers) and as a list length *)
+Definition abs_bound_z (f : spec_float) (n : Z) : N :=
+  Z.to_N (trunc_usize (SFmul p32 e32 f (b32_of_Z n))).
+Definition abs_bound (f : spec_float) (n : nat) : N := abs_bound_z f (Z.of_nat n).
+
+(* k as f32 / n as f32: how a bound "k of n documents" is written (used by probes and theorems only) *)
+Definition ratio32_z (k n : Z) : spec_float := SFdiv p32 e32 (b32_of_Z k) (b32_of_Z n).
 
 Record settings := mkSettings {
   s_nmin : nat; s_nmax : nat;
